@@ -1204,6 +1204,17 @@ class Interpreter : public EvaluatorInterface {
     void check_type_range(TypeInfo type, int64_t value, const std::string &name,
                           bool is_unsigned = false);
 
+    // Value to keep when `value` is stored into an integer location declared
+    // `type` (tiny, short, int, long, char; signed or unsigned) that is
+    // reached indirectly (through a pointer, a reference, self, ->, an
+    // element of a struct array): the same rule as a direct store to a
+    // variable of that type - a negative value for an unsigned target is
+    // clamped to 0, then check_type_range() stops the program if the value
+    // does not fit. Any other target type (floating point, string, pointer,
+    // struct, bool, unknown) is not checked and `value` is returned unchanged.
+    int64_t range_checked_store_value(TypeInfo type, bool is_unsigned,
+                                      int64_t value, const std::string &name);
+
     // 関数コンテキストへのアクセス
     const std::string &get_current_function_name() const {
         return current_function_name;
